@@ -162,6 +162,6 @@ public:
   }
 };
 SHarness h;
-struct Reg { Reg() { register_harness(&h); } } reg;
+struct Reg { Reg() { register_harness(&h); xsim::fn_pair_probe("seqlock: store_data overlaps read_data", "10store_data", "9read_data"); xsim::fn_pair_probe("seqlock: two writers compete for the lock", "12acquire_lock", "12acquire_lock"); xsim::fn_pair_probe("seqlock: writer holds the lock while a reader loads", "12release_lock", "seqlock&4loadEv"); } } reg;
 } // namespace hx_seqlock
 XSIM_MAIN()
